@@ -32,6 +32,7 @@ from edb.schema import policies as s_policies
 from edb.schema import schema as s_schema
 from edb.schema import types as s_types
 from edb.schema import expr as s_expr
+from edb.schema import utils as s_utils
 
 from edb.edgeql import ast as qlast
 from edb.edgeql import qltypes
@@ -272,6 +273,22 @@ def try_type_rewrite(
                 try_type_rewrite(
                     stype=obj, skip_subtypes=skip_subtypes, ctx=ctx)
                 # Mark this as having a real rewrite if any parts do
+                if type_rewrites[srw_key]:
+                    type_rewrites[rw_key] = True
+
+        # If the components have overlapping descendants, the SQL
+        # compiler selects from an exhaustive list of all the concrete
+        # types involved, each *without* its descendants, so make sure
+        # that those have their rewrites compiled as well.
+        union_types, union_is_exhaustive = (
+            s_utils.get_type_expr_non_overlapping_union(stype, schema))
+        if union_is_exhaustive:
+            for obj in union_types:
+                if not isinstance(obj, s_objtypes.ObjectType):
+                    continue
+                srw_key = (obj, True)
+                if srw_key not in type_rewrites:
+                    try_type_rewrite(stype=obj, skip_subtypes=True, ctx=ctx)
                 if type_rewrites[srw_key]:
                     type_rewrites[rw_key] = True
         return
